@@ -266,6 +266,21 @@ def _check_definitions(shape, res, si):
     elif st in ("rt", "exc") and convex:
         _v(res, si, cls, name, "raised", "%s: %s" % (type(val).__name__, val))
 
+    # ---- deprecated spellings forward to the balls above and must give the same ball
+    for old_name, new_name in (("incircle_from_center", "maximal_centered_bounded_circle"),
+                               ("insphere_from_center", "maximal_centered_bounded_sphere"),
+                               ("circumsphere_from_center", "minimal_centered_bounding_sphere")):
+        sto, vo = _read(shape, old_name)
+        stn, vn = _read(shape, new_name)
+        if sto == "ok" and stn == "ok":
+            C["def_checked:" + old_name] += 1
+            co, ro = _ball(vo)
+            cn, rn = _ball(vn)
+            if abs(ro - rn) > 1e-12 * max(rn, 1e-300) or np.linalg.norm(co - cn) > 1e-12 * L:
+                _v(res, si, cls, old_name, "deprecated-name-differs",
+                   "(%s, %r) but %s gives (%s, %r)" % (co.tolist(), ro, new_name, cn.tolist(),
+                                                       rn))
+
     # ---- circumscribed ball
     name = "circum" + sfx
     st, val = _read(shape, name)
